@@ -16,7 +16,7 @@ from .traced import TracedSampler, Registry
 DEFAULT = dict(kind='gauss', n_dim=2, K=8, mseed=0, blob='none', prior='id', vectorized=False,
                n_live=20, n_batch=4, n_update=None, n_like_new_bound=None, n_points_min=4,
                n_networks=0, periodic=None, pool=None, seed=1, enlarge_per_dim=1.1,
-               split_threshold=100, filepath=False,
+               split_threshold=100, filepath=False, world=None,
                history=[['run', dict(n_eff=60, n_like_max=600, discard_exploration=True)], ['posterior']])
 
 
@@ -65,8 +65,13 @@ def close_pools(s):
 def run_history(cfg, scratch_dir=None):
     """Returns dict(events=[...], info=...).  Exceptions of the code under test are reported as events."""
     c = full(cfg)
+    world = None
+    if c.get('world'):
+        from . import cellworld
+        w = c['world']
+        world = cellworld.World(w['lv'], w['extra'], w['drop'], c['K'])
     model = Model(kind=c['kind'], n_dim=c['n_dim'], K=c['K'], seed=c['mseed'], blob=c['blob'],
-                  prior=c['prior'], vectorized=c['vectorized'])
+                  prior=c['prior'], vectorized=c['vectorized'], cells_lv=(world.lv if world else None))
     reg = Registry(model)
     path = None
     if c['filepath']:
@@ -77,7 +82,9 @@ def run_history(cfg, scratch_dir=None):
     info = dict(returns=[], error=None, n_like=0, wall_s=0.0)
     t0 = time.time()
     s = None
-    with warnings.catch_warnings():
+    import contextlib
+    geometry = cellworld.install(world) if world else contextlib.nullcontext()
+    with warnings.catch_warnings(), geometry:
         warnings.simplefilter('ignore')
         try:
             s = make_sampler(c, reg, path, resume=False)
